@@ -36,7 +36,8 @@ RULE = ("A case is an item grader (String, Formula, Numerical, Matrix, SingleLis
         "every family by far more than the tolerance on the whole sampling box, and set_seed(spec seed) precedes "
         "every library call. Non-trivial = at least two entries earn different positive credits, or a tie at the "
         "maximum with messages of different lengths, or best grade 0 while a zero-grade entry has a message; distinct "
-        "by spec hash.")
+        "by spec hash."
+        " Matrix alternatives may use MatrixEntryComparer objects shared between the full graders and, first, graders of tolerance 1e6 and 0 (reference graders get fresh objects); Formula families with numbered-variable instances; blank submissions.")
 ASSUMPTIONS = ["the reference g_k is the library's own grading of one alternative in isolation (the property is about "
                "combining alternatives, not about grading one)",
                "messages never contain the wrong_msg sentinel; 'longest' is accepted by raw length and by length "
